@@ -26,7 +26,7 @@ MANIFEST = dict(
 )
 
 BATCH = 60
-TOKENS = ['w0', 'amb', 'stone fruit', 'unk']
+TOKENS = ['w0', 'amb', 'stone fruit', 'unk', 'W0']
 IC_POS = ['n', 'v', 'a', 'r']
 
 
@@ -39,7 +39,10 @@ def build(lid, g):
         rels[i].append(mk.rel(f'{lid}-{j:08}-{pos[j]}', 'hypernym'))
     sid = [f'{lid}-{i:08}-{pos[i]}' for i in range(n)]
     syns = [mk.synset(sid[i], pos[i], relations=rels[i]) for i in range(n)]
-    lex_of = {'w0': [0], 'amb': sorted({0, n - 1}), 'stone fruit': [1] if n >= 2 else []}
+    # 'W0' differs from 'w0' only in case and names another synset: a corpus token finds exactly the
+    # synsets of the form it spells (the normalised look-up is a fall-back, not a merge)
+    lex_of = {'w0': [0], 'amb': sorted({0, n - 1}), 'stone fruit': [1] if n >= 2 else [],
+              'W0': [n - 1] if n >= 2 else []}
     ents = []
     k = 0
     for word, nodes in lex_of.items():
@@ -71,6 +74,21 @@ def fold(p):
     return 'a' if p == 's' else p
 
 
+def lookup(lex_of, tok):
+    """synsets a corpus token finds: the documented form search with the default normalizer"""
+    def stage(q):
+        nodes = set()
+        for form, ns in lex_of.items():
+            nf = form.lower()
+            if form == q or (nf != form and nf == q):
+                nodes.update(ns)
+        return nodes
+    found = stage(tok)
+    if not found:
+        found = stage(tok.lower())
+    return sorted(found)
+
+
 def reference(g, edges, sid, lex_of, corpus, distribute, smoothing):
     n, pos = g['n'], g['pos']
     freq = {p: {None: smoothing} for p in IC_POS}
@@ -78,7 +96,7 @@ def reference(g, edges, sid, lex_of, corpus, distribute, smoothing):
         if fold(pos[i]) in freq:
             freq[fold(pos[i])][sid[i]] = smoothing
     for word, count in Counter(corpus).items():
-        nodes = lex_of.get(word, [])
+        nodes = lookup(lex_of, word)
         if not nodes:
             continue
         weight = count / len(nodes) if distribute else float(count)
@@ -171,7 +189,59 @@ def check_graph(lid, g, edges, sid, lex_of, corpora, V, obs):
                                 pass
 
 
+def check_twin(case):
+    """two versions of one lexicon (identical synset ids, different hypernym edges) covered by one Wordnet"""
+    env.fresh_db()
+    dbdir = env.db_path().parent
+    V = []
+    try:
+        n = 3
+        gA = {'n': n, 'loops': False, 'h': case['ha'], 'pos': 'nnn'}
+        gB = {'n': n, 'loops': False, 'h': case['hb'], 'pos': 'nnn'}
+        lexA, edgesA, sid, lex_of = build('tw', gA)
+        lexB, edgesB, _, _ = build('tw', gB)
+        lexB['version'] = '2'
+        for e_ in lexB['entries']:
+            e_['lemma']['writtenForm'] += '2'            # version 2 uses other words
+        order = [lexA, lexB] if case['order'] == 'ab' else [lexB, lexA]
+        for lx in order:
+            env.add_resource(mk.resource([lx], '1.0'))
+        with warnings.catch_warnings():
+            warnings.simplefilter('ignore')
+            w = wn.Wordnet(lexicon='tw:1 tw:2', expand='')
+        for corpus in (['w0'], ['amb', 'w0'], ['w02'], ['w0', 'amb2', 'amb2']):
+            for distribute in (True, False):
+                got = wn.ic.compute(corpus, w, distribute_weight=distribute, smoothing=1.0)
+                # reference: each version contributes along its own edges; ids are shared, so weights add up
+                exp = {p: {None: 1.0} for p in IC_POS}
+                for i in range(n):
+                    exp['n'][sid[i]] = 1.0
+                for word, count in Counter(corpus).items():
+                    for edges, suffix in ((edgesA, ''), (edgesB, '2')):
+                        if not word.endswith('2') == bool(suffix):
+                            continue
+                        nodes = lookup(lex_of, word[:-1] if suffix else word)
+                        if not nodes:
+                            continue
+                        wgt = count / len(nodes) if distribute else float(count)
+                        for i in nodes:
+                            exp['n'][None] += wgt
+                            for a in ancestors(n, edges, i):
+                                exp['n'][sid[a]] += wgt
+                for k in exp['n']:
+                    if not close(got['n'].get(k, -1), exp['n'][k]):
+                        V.append(('compute:weight:two-versions-sharing-ids',
+                                  f'{case} corpus={corpus} distribute={distribute}: weight[{k}] = {got["n"].get(k)} '
+                                  f'expected {exp["n"][k]}'))
+                        break
+        return {'v': V, 'd': runner.digest(case)}
+    finally:
+        env.drop_db(dbdir)
+
+
 def check(case):
+    if case.get('twin'):
+        return check_twin(case)
     if case.get('load'):
         return check_load(case)
     env.fresh_db()
@@ -268,6 +338,12 @@ def space(tier, seed):
         cs += [['w0', 'w0', 'amb'], ['amb', 'amb', 'stone fruit'], ['w0', 'amb', 'stone fruit'],
                ['unk', 'unk', 'unk'], [TOKENS[seed % 4]] * 3]
     cases = [{'graphs': gs[i:i + BATCH], 'corpora': cs} for i in range(0, len(gs), BATCH)]
+    dm = dag_masks(3)
+    for ha in dm:
+        for hb in dm:
+            if ha != hb and (tier == 'thorough' or (ha + hb) % 3 == seed % 3):
+                for order in ('ab', 'ba'):
+                    cases.append({'twin': True, 'ha': ha, 'hb': hb, 'order': order})
     for nn, pos in ((1, 'n'), (2, 'nv'), (3, 'nnv'), (3, 'nan')):
         cases.append({'load': True, 'n': nn, 'pos': pos})
     return cases
@@ -286,7 +362,7 @@ def run(tier, seed, jobs=None):
 
 
 def _one(c):
-    if 'graphs' in c or c.get('load'):
+    if 'graphs' in c or c.get('load') or c.get('twin'):
         return check(c)
     return check({'graphs': [c], 'corpora': corpora(3)})
 
